@@ -690,11 +690,13 @@ func c06(r *mon.Run) {
 	// selections in which EVERY element passes (what a filter may then hand on is its input) followed by a pipe stage that pages,
 	// reorders or picks: the stage works on its own list
 	allDoc := func() interface{} {
-		return docs.J(`{"it":[1,2,3,4,5],"io":[{"on":true,"v":1},{"on":true,"v":2},{"on":1,"v":3},{"on":"y","v":4},{"on":[0],"v":5}],"is":["e","d","c","b","a"],"o":{"p":[3,2,1]}}`)
+		return docs.J(`{"it":[1,2,3,4,5],"io":[{"on":true,"v":1},{"on":true,"v":2},{"on":1,"v":3},{"on":"y","v":4},{"on":[0],"v":5}],"is":["e","d","c","b","a"],"o":{"p":[3,2,1]},"run":[1,2,3,4,5,6,7,8,9,0,11,12,0,14],"runo":[{"on":1,"v":1},{"on":1,"v":2},{"on":1,"v":3},{"on":1,"v":4},{"on":1,"v":5},{"on":1,"v":6},{"on":1,"v":7},{"on":1,"v":8},{"on":1,"v":9},{"on":0,"v":10},{"on":1,"v":11}],"run20":[1,2,3,4,5,6,7,8,9,10,11,12,13,14,15,16,17,18,19,20,null,22]}`)
 	}
 	allExprs := []string{"it[?@] | [2:4]", "it[?@ > `0`] | [1:]", "io[?on] | [2:4]", "io[?on] | [1::2].v", "it[*] | [2:]", "it[:] | [1:3]", "it[] | [2:4]", "(it[?@])[2:4]", "it[?@] | [::2]", "it[?@] | reverse(@)", "it[?@] | sort(@)", "it[?`true`] | [3:]", "to_array(it) | [2:4]",
 		"not_null(it) | [1:3]", "it | [2:4]", "io[?on].v | [1:]", "is[?@] | sort(@)", "is[?@] | [1:] | sort(@)", "is[?@ != 'zz'] | [3:] | [0]", "it[?@] | [-2:]", "it[?@] | [::-1] | [1:3]", "io[?on] | [3:] | [0].v", "o.p[?@] | sort(@)", "o.p[?@] | [1:]", "it[?@] | map(&@, @) | [2:]",
-		"it[?@] | [?@ > `2`]", "it[?@] | [*] | [1:]", "it[?@][2:4]", "it[?@] | [4:2:-1]", "[it[?@] | [2:4], it]", "it[?@] | sort_by(@, &@) | [1:3]", "io[?v] | sort_by(@, &v) | [2:]", "it[?@] | [2:4] | sum(@)", "it[?@ < `9`] | [1:4:2]"}
+		"it[?@] | [?@ > `2`]", "it[?@] | [*] | [1:]", "it[?@][2:4]", "it[?@] | [4:2:-1]", "[it[?@] | [2:4], it]", "it[?@] | sort_by(@, &@) | [1:3]", "io[?v] | sort_by(@, &v) | [2:]", "it[?@] | [2:4] | sum(@)", "it[?@ < `9`] | [1:4:2]",
+		// a long run of kept elements from the start, then a dropped one, then kept ones again
+		"run[?@]", "run[?@ > `0`]", "length(run[?@])", "run[?@] | [0]", "runo[?on].v", "runo[?on]", "run20[?@]", "run20[?@ != `null`]", "run[?@ != `0`] | [-1]", "[run[?@], run]", "run[?@][10]", "runo[?on][9].v", "run[?@ < `100` && @]", "map(&@, run[?@])", "run[*] | [?@]", "run[?@] | [?@ > `5`]", "run[::-1]", "run20[::-1]", "run20[30:2:-1]", "run[-1:0:-1]", "run20[::-1][0]"}
 	allw := mon.Workload{Name: "selections-that-keep-everything-then-a-paging-stage", N: len(allExprs) * 2, Serial: true, Batch: 100,
 		Describe: func(i int) string { return allExprs[i/2] },
 		Do: func(i int, t *mon.Tally) {
